@@ -525,7 +525,8 @@ IP::security_type IP::security_type::from_option(const option& opt)  {
 }
 
 IP::generic_route_option_type IP::generic_route_option_type::from_option(const option& opt)  {
-    if (opt.data_size() < 1 + sizeof(uint32_t) || ((opt.data_size() - 1) % sizeof(uint32_t)) != 0) {
+    // The pointer is mandatory, the route data may be empty (RFC 791: length - 3 octets)
+    if (opt.data_size() < 1 || ((opt.data_size() - 1) % sizeof(uint32_t)) != 0) {
         throw malformed_option();
     }
     generic_route_option_type output;
